@@ -360,20 +360,20 @@ Definition from_user_parts_go (t id r : bytes) : go bytes :=
    the computed usersets of ONE object type in which [visited] is the set of relations on the
    current path (the map is cloned at every call), so shared sub-structure is walked once per
    PATH.  The model counts the calls: [budget] is decremented at every call; HBudget = more
-   calls than the budget.  Relations of a type are numbered; an undefined relation is any
-   number >= length tab. *)
+   calls than the budget.  Relations of a type are numbered (binary numbers: the extracted model
+   compares them on every call); an undefined relation is any number >= length tab. *)
 
 Inductive rw :=
 | RThis                          (* direct assignment *)
 | RTTU                           (* tuple-to-userset: not followed by hasCycle *)
-| RComputed (r : nat)            (* computed userset on relation r of the same type *)
+| RComputed (r : N)              (* computed userset on relation r of the same type *)
 | RNode (children : list rw).    (* union / intersection / difference (base, subtract) / empty *)
 
 Definition reltab := list rw.
 
 Inductive hres := HNo | HCycle | HErr | HBudget.
 
-Fixpoint has_cycle (fuel : nat) (tab : reltab) (rel : nat) (rewrite : rw) (visited : list nat)
+Fixpoint has_cycle (fuel : nat) (tab : reltab) (rel : N) (rewrite : rw) (visited : list N)
          (budget : N) : hres * N :=
   match fuel with
   | O => (HBudget, 0)
@@ -385,8 +385,8 @@ Fixpoint has_cycle (fuel : nat) (tab : reltab) (rel : nat) (rewrite : rw) (visit
         match rewrite with
         | RThis | RTTU => (HNo, b)
         | RComputed r' =>
-            if existsb (Nat.eqb r') visited' then (HCycle, b)
-            else match nth_error tab r' with
+            if existsb (N.eqb r') visited' then (HCycle, b)
+            else match nth_error tab (N.to_nat r') with
                  | None => (HErr, b)
                  | Some rw' => has_cycle f tab r' rw' visited' b
                  end
@@ -404,7 +404,7 @@ Fixpoint has_cycle (fuel : nat) (tab : reltab) (rel : nat) (rewrite : rw) (visit
   end.
 
 (* HasCycle for every relation of a type, in order, stopping at the first cycle / error *)
-Fixpoint type_cost (fuel : nat) (tab : reltab) (rels : list (nat * rw)) (budget : N) : hres * N :=
+Fixpoint type_cost (fuel : nat) (tab : reltab) (rels : list (N * rw)) (budget : N) : hres * N :=
   match rels with
   | [] => (HNo, budget)
   | (i, r) :: rest =>
@@ -414,8 +414,8 @@ Fixpoint type_cost (fuel : nat) (tab : reltab) (rels : list (nat * rw)) (budget 
       end
   end.
 
-Fixpoint index_from {B} (i : nat) (l : list B) : list (nat * B) :=
-  match l with [] => [] | x :: r => (i, x) :: index_from (S i) r end.
+Fixpoint index_from {B} (i : N) (l : list B) : list (N * B) :=
+  match l with [] => [] | x :: r => (i, x) :: index_from (N.succ i) r end.
 
 Fixpoint model_cost (fuel : nat) (types : list reltab) (budget : N) : hres * N :=
   match types with
@@ -429,7 +429,7 @@ Fixpoint model_cost (fuel : nat) (types : list reltab) (budget : N) : hres * N :
 
 (* define e_i: e_{i+1} or e_{i+1}   (i < n)      define e_n: [user]        -- a VALID model *)
 Definition diamond (n : nat) : reltab :=
-  map (fun i => RNode [RComputed (S i); RComputed (S i)]) (seq 0 n) ++ [RThis].
+  map (fun i => RNode [RComputed (N.of_nat (S i)); RComputed (N.of_nat (S i))]) (seq 0 n) ++ [RThis].
 
 (* number of hasCycle calls for relation e_{n-k} of [diamond n] *)
 Fixpoint diamond_calls (k : nat) : N :=
